@@ -57,6 +57,48 @@ theorem waitNotBusy_tr (n : Nat) :
     · simp [h]
     · exact absurd rfl (h p)
 
+/-- A `wait_not_busy` that fails polled at least once, and its last poll did not show the card not
+busy: it read a busy byte (budget exhausted) or hit an SPI error (logged as 256). -/
+theorem waitNotBusy_fail_tr (n : Nat) :
+    Tr (waitNotBusy B n) (fun r evs => (∃ e, r = .err e) → evs ≠ [] ∧ evs.getLast? ≠ some (.poll 255)) := by
+  induction n with
+  | zero =>
+    unfold waitNotBusy
+    refine (Tr.bind (readByte_tr B) fun g => Tr.ite (fun _ => Tr.pure ()) (fun _ => Tr.fail _)).conseq ?_
+    rintro r evs (⟨g, e1, e2, rfl, h1, (⟨hg, rfl, rfl⟩ | ⟨hg, rfl, rfl⟩)⟩ | ⟨e, rfl, h⟩ | ⟨p, rfl, h⟩)
+    · rintro ⟨e, he⟩; cases he
+    · intro _
+      rcases h1 with ⟨g', _, hg', rfl⟩ | ⟨h, _⟩
+      · cases hg'; simp [hg]
+      · cases h
+    · intro _
+      rcases h with ⟨g', _, hg', _⟩ | ⟨_, rfl⟩
+      · cases hg'
+      · simp
+    · rintro ⟨e, he⟩; cases he
+  | succ n ih =>
+    unfold waitNotBusy
+    refine (Tr.bind (readByte_tr B) fun g => Tr.ite (fun _ => Tr.pure ())
+      (fun _ => Tr.bind (delayTick_tr B) fun _ => ih)).conseq ?_
+    rintro r evs (⟨g, e1, e2, rfl, h1, (⟨hg, rfl, rfl⟩ | ⟨hg, hrest⟩)⟩ | ⟨e, rfl, h⟩ | ⟨p, rfl, h⟩)
+    · rintro ⟨e, he⟩; cases he
+    · rcases hrest with ⟨_, d1, d2, rfl, ⟨_, rfl⟩, k⟩ | ⟨e, rfl, h, _⟩ | ⟨p, rfl, h, _⟩
+      · intro hr
+        obtain ⟨k1, k2⟩ := k hr
+        refine ⟨by simp [k1], ?_⟩
+        simp only [List.nil_append]
+        rw [List.getLast?_append]
+        cases hb : d2.getLast? with
+        | none => simp [List.getLast?_eq_none_iff] at hb; exact absurd hb k1
+        | some x => rw [hb] at k2; exact k2
+      · cases h
+      · cases h
+    · intro _
+      rcases h with ⟨g', _, hg', _⟩ | ⟨_, rfl⟩
+      · cases hg'
+      · simp
+    · rintro ⟨e, he⟩; cases he
+
 theorem waitResponse_tr (c n : Nat) :
     Tr (waitResponse B c n) (fun r evs => AllPolls evs ∧ (∀ p, r ≠ .panic p)) := by
   induction n with
